@@ -175,7 +175,25 @@ def rfc_encode(fin, r1, r2, r3, op, maskbit, key, payload):
 
 
 # ---------------------------------------------------------------- RFC 6455 5.2 decoder spec (over the stream rx at offset f)
-class Dec:
+_dec_cache = {}
+
+
+def Dec(rx, f):
+    """Fields of the frame that starts at offset f of the byte stream rx (memoised: z3 terms are hash-consed)."""
+    if not z3.is_expr(f):
+        f = z3.IntVal(f)
+    k = (rx.get_id(), f.get_id())
+    hit = _dec_cache.get(k)
+    if hit is not None and hit[0].eq(rx) and hit[1].eq(f):
+        return hit[2]
+    d = _Dec(rx, f)
+    if len(_dec_cache) > 20000:
+        _dec_cache.clear()
+    _dec_cache[k] = (rx, f, d)
+    return d
+
+
+class _Dec:
     """Fields of the frame that starts at offset f of the byte stream rx, as RFC 6455 5.2 defines them."""
 
     def __init__(self, rx, f):
